@@ -3,6 +3,7 @@ import PcfgVerif.Model.OmenProb
 import PcfgVerif.Model.OmenFiles
 import PcfgVerif.Model.OmenCount
 import PcfgVerif.Model.OmenScorerFiles
+import PcfgVerif.Model.OmenText
 import PcfgVerif.Drive.Omen
 /-! Driver commands for the trainer / scorer side of OMEN (C11, C18). -/
 namespace Drive.OmenTrainer
@@ -115,6 +116,20 @@ def step (st : St) : List String → St × String
       let tt := ct.toTTables (floatLvl 10) ng 10
       ({ t := tt }, s!"a={showStr alphabet} {showCounts ct} {showLevels tt}")
     | _, _, _, _ => (st, "bad-op")
+  | ["of.text", ml, ng, ipT, cpT, lnT] =>
+    -- the same from the decoded text of the three files (`loadOmenText`: line iteration, rstrip, split at TAB, int)
+    match ml.toNat?, ng.toNat?, parseStr ipT, parseStr cpT, parseStr lnT with
+    | some ml, some ng, some ipS, some cpS, some lnS =>
+      let cps (s : Str) : Pcfg.CPs := s.map Char.toNat
+      let toLines (rs : List (Nat × Pcfg.CPs)) : List NLine := rs.map fun r => (r.1, r.2.map Char.ofNat)
+      let lnL := (Pcfg.codecLines (cps lnS)).mapM fun l => Pcfg.parseDigits (Pcfg.rstripChars [10, 13] l)
+      match Pcfg.loadOmenText (cps ipS), Pcfg.loadOmenText (cps cpS), lnL with
+      | some ipR, some cpR, some lnL =>
+        match loadIp ml (toLines ipR), loadCp ml (toLines cpR), loadLn ml ng lnL with
+        | some ip, some cp, some ln => (st, s!"ip={showRows showStr ip} ln={showRows toString ln} cp={showCp cp}")
+        | _, _, _ => (st, "raise")
+      | _, _, _ => (st, "raise")
+    | _, _, _, _, _ => (st, "bad-op")
   | "of.load" :: ml :: ng :: rest =>
     -- the guesser's `load_rules` on the records of IP.level | CP.level | LN.level (sections separated by `|`)
     match ml.toNat?, ng.toNat? with
